@@ -166,7 +166,7 @@ func c17WorkDir() (string, error) {
 
 // c17SysRootsKind: the kinds whose cases depend on what the process's system trust store contains.
 func c17SysRootsKind() bool {
-	return len(os.Args) > 1 && (os.Args[1] == "tls" || os.Args[1] == "tlscfg" || os.Args[1] == "upcfg" || os.Args[1] == "uprouter")
+	return len(os.Args) > 1 && (os.Args[1] == "tls" || os.Args[1] == "tlscfg" || os.Args[1] == "upcfg" || os.Args[1] == "uprouter" || os.Args[1] == "uphistory")
 }
 
 // c17PoolIs: pool holds exactly the given certificates (compared by raw subject; every harness CA has its own).
@@ -465,6 +465,17 @@ func (h c17DoH) ServeHTTP(w http.ResponseWriter, r *http.Request) {
 	}
 	w.Header().Set("Content-Type", "application/dns-message")
 	w.Write(resp)
+	if h.seen.oneShot && r.ProtoMajor == 3 {
+		// http3.Server has no per-request way to end the connection: drop the whole QUIC connection after the reply has
+		// drained (as c17ServeDoQ does), so that the next exchange has to dial again
+		if hj, ok := w.(http3.Hijacker); ok {
+			if c, ok := hj.StreamCreator().(interface {
+				CloseWithError(quic.ApplicationErrorCode, string) error
+			}); ok {
+				time.AfterFunc(60*time.Millisecond, func() { c.CloseWithError(0, "") })
+			}
+		}
+	}
 }
 
 func c17ServeDoQ(l *quic.Listener, seen *c17Seen) {
